@@ -25,8 +25,6 @@ IMPLICIT_ROUNDS = {
     "sun_md5_crypt": 0,
 }
 
-# hashers whose unsalted/unkeyed output is case-insensitive hex (documented normalisation)
-BCRYPT_FAMILY = ("bcrypt", "ldap_bcrypt", "django_bcrypt", "bcrypt_sha256", "django_bcrypt_sha256")
 
 
 class Info:
@@ -120,8 +118,7 @@ def rounds_values(info, tier):
     else:
         base = info.name.replace("ldap_", "")
         if base == "bsdi_crypt":
-            vals += [4095, 4097]  # fills the 2nd/3rd h64 digit of the 24-bit field (odd: even rounds are avoided)
-            vals = [v for v in vals if v % 2 == 1]
+            vals += [4095, 4096, 4097, 262143]  # fills the 2nd..4th h64 digit of the 24-bit rounds field
         elif base in ("sha256_crypt", "sha512_crypt"):
             vals += [1999, 10000 if tier != "quick" else 2000]
         elif base == "sun_md5_crypt":
@@ -171,7 +168,8 @@ def salt_values(info, tier, rng):
     top = min(mx, MAX_SALT) if mx else MAX_SALT
     out = []
     for size in range(mn, top + 1):
-        out.append(_rand_salt(info, size, rng))
+        for _ in range(1 if tier == "quick" else 3):
+            out.append(_rand_salt(info, size, rng))
     dflt = h.default_salt_size
     if dflt is None or dflt > top:
         dflt = top
@@ -204,12 +202,9 @@ def extra_axes(info):
     name = info.name
     base = name.replace("ldap_", "")
     ax = {}
-    h = info.h
-    iv = getattr(h, "ident_values", None)
     if "ident" in info.setting_kwds:
         src = info.base.ident_values
         ax["ident"] = [info.base.default_ident] + [i for i in src if i != info.base.default_ident]
-    del iv
     if name == "fshp":
         ax["variant"] = [1, 0, 2, 3]
     if name == "scram":
@@ -256,6 +251,12 @@ def make(info, settings, secret=PW):
         # no using()/hash() route exists for the bare-salt form: build the record directly
         base = info.base
         obj = base(salt=st["salt"], rounds=st["rounds"], bare_salt=True)
+        obj.checksum = obj._calc_checksum(secret)
+        return info.wrap(obj.to_string()), "constructor"
+    if info.base.name == "bsdi_crypt" and st.get("rounds") is not None and st["rounds"] % 2 == 0:
+        # using(rounds=even).hash() deliberately hashes with rounds|1 (weak-key avoidance, outside C07); an even
+        # rounds field is still a well-formed stored hash, so it is built from the record
+        obj = info.base(salt=st["salt"], rounds=st["rounds"])
         obj.checksum = obj._calc_checksum(secret)
         return info.wrap(obj.to_string()), "constructor"
     kw = {k: v for k, v in st.items() if v is not None}
@@ -325,10 +326,8 @@ def _fixup(info, st):
 
 
 def _valid_combo(info, st):
-    if info.name == "bcrypt_sha256":
-        if st.get("version", 2) == 2 and st.get("ident", "$2b$") != "$2b$":
-            return False
-    return True
+    # bcrypt_sha256 version 2 is defined for the $2b$ ident only
+    return not (info.name == "bcrypt_sha256" and st.get("version", 2) == 2 and st.get("ident", "$2b$") != "$2b$")
 
 
 def generate(info, tier, rng, notes=None):
